@@ -542,6 +542,18 @@ func (db *DB) ResetLocalState(ctx context.Context) error {
 
 	db.invalidatePosCache()
 
+	// When this happens in a running daemon (auto-recovery) the replica still
+	// holds the old chain. Without local files the next sync would number its
+	// snapshot from TXID 1, below the replica's position, and Replica.Sync
+	// would report success without uploading anything. Re-establish the
+	// position from the replica the way start-up does for a lost meta
+	// directory, so that the fresh snapshot is numbered above everything stored.
+	if db.db != nil && db.Replica != nil && db.Replica.Client != nil {
+		if err := db.checkDatabaseBehindReplica(ctx); err != nil {
+			return fmt.Errorf("re-establish position from replica: %w", err)
+		}
+	}
+
 	db.Logger.Info("local state reset complete, next sync will create fresh snapshot")
 	return nil
 }
